@@ -25,6 +25,7 @@ CONSTANTS
   Depth = 0
   Export = FALSE
   SetWeight = 1
+  RareWeight = 1
   Setter = "class_level"
 INVARIANT ObjectInv
 CONSTRAINT Bound
